@@ -225,6 +225,7 @@ def main(tier, seed, budget):
                     stats['ipe_worlds'] += int(bool((a.get('opts') or {}).get('test_all', {}).get('ignore_previous_eqns')))
                     stats['weak_worlds'] = stats.get('weak_worlds', 0) + int(bool(a.get('weak_fisher')))
                     stats['match_rows'] = stats.get('match_rows', 0) + int(((r.get('stats') or {}).get('match_rows_checked')) or 0)
+                    stats['skipped_rows'] = stats.get('skipped_rows', 0) + int(((r.get('stats') or {}).get('skipped_rows_checked')) or 0)
                     stats['ident_rows'] = stats.get('ident_rows', 0) + int(((r.get('stats') or {}).get('identity_variants_checked')) or 0)
                     stats['derivs_rows'] = stats.get('derivs_rows', 0) + int(((r.get('stats') or {}).get('derivs_rows_checked')) or 0)
                     stats['by_like'][a['like']['cls']] = stats['by_like'].get(a['like']['cls'], 0) + 1
@@ -283,7 +284,7 @@ def main(tier, seed, budget):
         samples=samples, fit_worlds=stats['fit_worlds'], tile_worlds=stats['tile_worlds'], tile_cases=stats['tile_cases'],
         tile_distinct_N_P_pairs=len(stats['tile_pairs']), tile_sweep_complete_N_le_64_P_le_16=not quick,
         worlds_by_P=stats['by_P'], worlds_by_policy=stats['by_policy'], worlds_by_likelihood=stats['by_like'],
-        fit_worlds_with_more_ranks_than_unique_functions=stats['P_gt_U'], fit_worlds_with_P_ge_11=stats['P_ge_11'], fit_worlds_with_ignore_previous_eqns=stats['ipe_worlds'], fit_worlds_with_weakly_constraining_second_derivatives=stats.get('weak_worlds', 0), match_rows_recomputed=stats.get('match_rows', 0), identity_variant_rows_recomputed_across_stages=stats.get('ident_rows', 0), second_derivative_rows_structure_checked=stats.get('derivs_rows', 0), fit_worlds_with_timeouts_in_test_all=stats['fault_worlds'], timeouts_fired_in_fitting=stats['faults_fired'],
+        fit_worlds_with_more_ranks_than_unique_functions=stats['P_gt_U'], fit_worlds_with_P_ge_11=stats['P_ge_11'], fit_worlds_with_ignore_previous_eqns=stats['ipe_worlds'], fit_worlds_with_weakly_constraining_second_derivatives=stats.get('weak_worlds', 0), match_rows_recomputed=stats.get('match_rows', 0), identity_variant_rows_recomputed_across_stages=stats.get('ident_rows', 0), rows_of_repeated_lower_complexity_functions_checked_skipped=stats.get('skipped_rows', 0), second_derivative_rows_structure_checked=stats.get('derivs_rows', 0), fit_worlds_with_timeouts_in_test_all=stats['fault_worlds'], timeouts_fired_in_fitting=stats['faults_fired'],
         output_rows_recomputed=stats['rows_checked'], one_rank_reruns_compared=stats['cmp_runs'],
         seam_events=stats['events'], runs_per_hour=round(3600.0 * nw / max(wall, 1e-9)),
         fault_kinds={'F1 interleaving choice': stats['events'], 'F5 rank count': nw, 'F3 timer expiry in test_all (fired)': stats['faults_fired']}, selftest=selftest,
